@@ -62,6 +62,12 @@ CLAIMS = {
    design_ref="DESIGN.md §4 C09",
    note="Trusted: Coq kernel; harness/c09.py (program driver, bytearray reference). Values are byte strings in the model; big-endian replay and memtrace-off are known findings.",
    technique="Coq proof of replay = sequential execution under the no-rewrite guard (+ refutation witness) + differential testing against bytearray execution over pointer assignments"),
+ "C19": dict(
+   category="proof",
+   text="Coq theorems over a model of merge()/vec.simplify (flattening, de-duplication, single-alternative collapse, widening, complexity threshold, flags forced to top): for all map pairs, every widening/threshold setting and every location written by either map, the merged value is unknown or lists the value of the first map and the value of the second; locations written by neither are untouched; evaluating the merged alternatives yields candidates containing each original result. Tie: vec([v1,v2]).simplify of real values vs the model's join (vm_compute, threshold off). Search oracle: structural and evaluated membership on pairs of real mappers over registers, flags and memory locations with path conditions, widening and thresholds. One defect (top stored in memory read back as undefined memory) was repaired.",
+   design_ref="DESIGN.md §4 C19",
+   note="Trusted: Coq kernel; harness/c19.py. mapper.assume (path conditions) and the complexity measure are exercised through the implementation only.",
+   technique="Coq proof of join covering both inputs + model/implementation join correspondence + membership oracle"),
 }
 NOT_YET = {}
 def main():
